@@ -171,3 +171,33 @@ def hier_case(rng, levels=None, last_all_atom=True, share_p=0.0, virtual_p=0.0):
             'nfrag': nf, 'natoms': len(g),
             'mol': {'n': [[k, d['element'], d['charge'], d['h'], d['aromatic']] for k, d in g.nodes(data=True)],
                     'e': [[a, b, o] for a, b, o in g.edges(data='order')]}}
+
+
+def mult_case(rng):
+    """a polymer written on three levels whose MIDDLE level uses the expansion operator inside a fragment definition
+    ('#X=[<][#A]|2[#B][>]'): the units of the middle fragment written out are the flattened two-level description.
+    Only '|2' is used behind which something follows (descriptors or beads): other factors in that position are open
+    finding R7."""
+    units = {'A': '[<]CC[>]', 'B': '[<]OC[>]', 'C': '[<]C(C)C[>]', 'D': '[<]NC[>]', 'E': '[<]C(=O)C[>]'}
+    names = rng.sample(sorted(units), rng.randint(2, 3))
+    beads = []           # (name, factor)
+    for k in range(rng.randint(2, 4)):
+        beads.append([rng.choice(names), 1])
+    j = rng.randrange(len(beads))
+    beads[j][1] = 2
+    if rng.random() < 0.3 and len(beads) > 2:
+        # a second expansion, at the very end of the fragment (nothing but the closing descriptor behind it)
+        beads[-1][1] = rng.choice([2, 2, 3]) if j != len(beads) - 1 else 2
+    text = '[<]' + ''.join('[#%s]%s' % (n, '|%d' % f if f > 1 else '') for n, f in beads) + '[>]'
+    # an expansion with factor 3 is only written where the closing descriptor is the only thing that follows and ... no:
+    # keep to factor 2 everywhere (R7)
+    text = text.replace('|3', '|2')
+    beads = [[n, 2 if f > 1 else 1] for n, f in beads]
+    m = rng.randint(1, 3)
+    top = '{[#X]%s}' % ('|%d' % m if m > 1 else '')
+    used = sorted({n for n, _ in beads})
+    frag_block = '{' + ','.join('#%s=%s' % (n, units[n]) for n in used) + '}'
+    s3 = top + '.{#X=' + text + '}.' + frag_block
+    flat_beads = [n for n, f in beads for _ in range(f)] * m
+    flat = '{' + ''.join('[#%s]' % n for n in flat_beads) + '}.' + frag_block
+    return {'kind': 'hier', 's': s3, 'flat': flat, 'levels': 2, 'all_atom': True, 'mult_in_fragment': True}
